@@ -43,6 +43,7 @@ import (
 	"sort"
 	"strings"
 	"sync"
+	"sync/atomic"
 	"testing"
 	"time"
 
@@ -649,6 +650,34 @@ func (s *machine) respond(t world.TB, kind, via string, ref uint64) {
 		}
 		toMeasurement := dst.Entity != nil && len(dst.Entity) == 1 && dst.Entity[0] == 1
 		var d model.DatagramType
+		if via == "inbound-reply" && toMeasurement && kind == "unanswered" && w != nil && w.request && ref%3 == 0 {
+			// the reply asks for an acknowledgement; while the stack writes it (the response is being
+			// handled, the SHIP writer is application territory) the identical request is issued again,
+			// as polling code does: the response has arrived, so it is sent
+			d = s.c.p.Msg(model.CmdClassifierTypeReply, src, dst, true, &r, dataCmd(int(ref%4), int(ref%100)))
+			var fired atomic.Bool
+			var again *model.MsgCounterType
+			var againErr error
+			s.c.cap.SetOnWrite(func([]byte) {
+				if fired.CompareAndSwap(false, true) { // (the request written from here comes through this writer too)
+					again, againErr = s.c.sender.Request(*w.d.Header.CmdClassifier, w.d.Header.AddressSource, w.d.Header.AddressDestination,
+						w.d.Header.AckRequest != nil && *w.d.Header.AckRequest, w.d.Payload.Cmd)
+				}
+			})
+			s.c.p.Send(d)
+			s.c.cap.SetOnWrite(nil)
+			s.c.sync()
+			s.log("  (the identical request was issued again while the reply was acknowledged => %v, %v)", again, againErr)
+			world.Label("response/reissue-while-response-is-handled")
+			if again != nil && uint64(*again) == ref {
+				world.Fail(t, "C13/withheld-after-response/reissued-while-response-is-handled", "request %d was answered by an inbound reply; the identical request issued while the stack acknowledged that reply was withheld as a duplicate of it (counter %d returned)\n%s", ref, uint64(*again), s.hist())
+			}
+			s.m.answer(ref)
+			s.m.responses++
+			s.absorb(t)
+			world.Label("response/" + kind + "/" + via)
+			return
+		}
 		if via == "inbound-reply" && toMeasurement {
 			d = s.c.p.Msg(model.CmdClassifierTypeReply, src, dst, false, &r, dataCmd(int(ref%4), int(ref%100)))
 		} else {
